@@ -1,20 +1,38 @@
-"""Implementation side of C09: run one generated scenario with injected faults and report what the
-caller of pyxel.run_mode / of .load() sees (exception type, MRO, message, notes, chain; the probes'
-call log; whether an object came back)."""
+"""Implementation side of C09: run one generated scenario with injected faults through one of the
+public entry points that start a simulation and report what the caller sees (exception type, MRO,
+message, notes, chain; the probes' call log; whether an object came back).
+
+entry      what is called
+---------  ---------------------------------------------------------------------------------------
+run_mode   pyxel.run_mode(mode, detector, pipeline[, debug])            (+ .load() for dask / calibration)
+run_file   pyxel.run(<yaml file written from the same scenario>)
+cli        pyxel.run.main(["run", <yaml file>], standalone_mode=False)   (the `pyxel run` command)
+method     Exposure.run_exposure / Observation.run_pipelines / Calibration.run_calibration on a Processor
+deprecated pyxel.exposure_mode / pyxel.observation_mode / pyxel.calibration_mode
+
+each with or without an `outputs` section/object.  `cleanup_fails`: pyxel.outputs.save_log_file (the
+clean-up step of pyxel.run's `finally:` block) is replaced from outside by a function that raises.
+"""
 from __future__ import annotations
 
+import itertools
 import logging
 import os
 
+_CASE_IDS = itertools.count(1)
+
 T_KEY = "detector.environment.temperature"
 Q_KEY = "detector.characteristics.quantum_efficiency"
+FUNC = "verif_probes_c09.node"
+CLEANUP_MSG = "c09-cleanup-failed"
 
 
 def exc_info(ex: BaseException) -> dict:
     chain = []
     c = ex.__cause__ or ex.__context__
-    while c is not None and len(chain) < 5:
-        chain.append(dict(cls=type(c).__name__, msg=str(c)[:300]))
+    while c is not None and len(chain) < 6:
+        chain.append(dict(cls=type(c).__name__, msg=str(c)[:300],
+                          notes=[str(n)[:300] for n in getattr(c, "__notes__", [])]))
         c = c.__cause__ or c.__context__
     return dict(raised=True, cls=type(ex).__name__, mro=[k.__name__ for k in type(ex).__mro__][:8],
                 msg=str(ex)[-6000:], notes=[str(n)[:1500] for n in getattr(ex, "__notes__", [])], chain=chain)
@@ -24,10 +42,9 @@ def _ident(run):
     return (run.get("t"), run.get("q"), run.get("tag"))
 
 
-def build_pipeline(p):
-    """Every model is verif_probes_c09.node; the faults are translated into its `faults` argument."""
-    from harness import pyx
-
+def model_specs(p):
+    """{group: [ {func, name, enabled, arguments} ]}: every model is verif_probes_c09.node; the faults
+    are translated into its `faults` argument."""
     runs = {r["id"]: r for r in p["runs"]}
     first = True
     spec = {}
@@ -39,6 +56,10 @@ def build_pipeline(p):
                 if f["key"] != m["key"]:
                     continue
                 d = dict(step=f["step"], cls=f["cls"], msg=f["msg"])
+                if f.get("chained") or p.get("chained"):
+                    d["chained"] = True
+                if f.get("corrupt"):
+                    d["corrupt"] = True
                 if p["mode"] == "calib":
                     d["n"] = f["run"]
                 else:
@@ -47,19 +68,21 @@ def build_pipeline(p):
                         if r.get(k) is not None:
                             d[k] = r[k]
                 fl.append(d)
-            args = dict(faults=fl)
+            args = dict(faults=fl, case_id=p["_cid"])
             if p["mode"] == "calib":
-                args["count_key"] = f"ev{m['key']}"
+                args["count_key"] = f"{p['_cid']}:ev{m['key']}"
             if first and m.get("enabled", True):
                 first = False
                 if p["mode"] == "calib":
                     args.update(write_all=True, arg=1.0, arg2=0.5)
-                elif any(pp["kind"] == "arg" for pp in p.get("params", [])):
-                    args.update(set_tag=True, arg="?")
-            models.append(dict(func="verif_probes_c09.node", name=m["name"], enabled=m.get("enabled", True),
-                               arguments=args))
+                else:
+                    if any(pp["kind"] == "arg" for pp in p.get("params", [])):
+                        args.update(set_tag=True, arg="?")       # "?" = the value of a run that does not sweep `arg`
+                    if p.get("outputs"):
+                        args.update(write_all=True)     # something to save
+            models.append(dict(func=FUNC, name=m["name"], enabled=m.get("enabled", True), arguments=args))
         spec[g["name"]] = models
-    return pyx.make_pipeline(spec)
+    return spec
 
 
 def first_enabled(p):
@@ -84,8 +107,8 @@ def trace_of(p):
 
     ids = {_ident(r): r["id"] for r in p["runs"]}
     out = []
-    for e in vp.TRACE:
-        if e.get("probe") != "node":
+    for e in list(vp.TRACE):
+        if e.get("probe") != "node" or e.get("case") != p["_cid"]:
             continue
         if p["mode"] == "calib":
             rid = e["n"]
@@ -101,69 +124,209 @@ def trace_of(p):
     return out
 
 
+# ------------------------------------------------------------------------------------------ building
+
+
+OUT_FOLDER = "c09_out"
+SAVE = [{"detector.image.array": ["npy"]}]
+
+
+def outputs_dict(p):
+    return dict(output_folder=os.path.abspath(OUT_FOLDER), save_data_to_file=SAVE) if p.get("outputs") else None
+
+
+def calib_kwargs(p):
+    g, mn = first_enabled(p)
+    return dict(
+        target_data_path=["c09_target.npy"],
+        fitness_function=dict(func="pyxel.calibration.fitness.sum_of_abs_residuals"),
+        algorithm=dict(type="sade", generations=1, population_size=p["pop"]),
+        parameters=[dict(key=f"pipeline.{g}.{mn}.arguments.arg", values="_", boundaries=[0.0, 4.0]),
+                    dict(key=f"pipeline.{g}.{mn}.arguments.arg2", values="_", boundaries=[0.0, 1.0])],
+        result_type="pixel", result_fit_range=[0, 3, 0, 4], target_fit_range=[0, 3, 0, 4],
+        pygmo_seed=p.get("pygmo_seed", 1), num_islands=p.get("islands", 1), num_evolutions=p["evolutions"],
+        type_islands="multithreading")
+
+
+def obs_kwargs(p):
+    return dict(mode=p.get("pmode", "product"), with_dask=(p["mode"] == "obs_dask"),
+                parameters=[dict(key=param_key(p, pp["kind"]), values=list(pp["values"])) for pp in p["params"]])
+
+
+def build_mode(p, readout):
+    """The running-mode object, built directly (entries run_mode / method / deprecated)."""
+    from pyxel.observation import ParameterValues
+
+    mode, od = p["mode"], outputs_dict(p)
+    if mode == "exposure":
+        from pyxel.exposure import Exposure
+        from pyxel.outputs import ExposureOutputs
+
+        return Exposure(readout=readout, outputs=ExposureOutputs(**od) if od else None, pipeline_seed=p.get("seed"))
+    if mode in ("obs_seq", "obs_dask"):
+        from pyxel.observation import Observation
+        from pyxel.outputs import ObservationOutputs
+
+        kw = obs_kwargs(p)
+        kw["parameters"] = [ParameterValues(**d) for d in kw["parameters"]]
+        return Observation(readout=readout, outputs=ObservationOutputs(**od) if od else None,
+                           pipeline_seed=p.get("seed"), **kw)
+    from pyxel.calibration import Algorithm, Calibration
+    from pyxel.outputs import CalibrationOutputs
+    from pyxel.pipelines.model_function import FitnessFunction
+
+    kw = calib_kwargs(p)
+    kw["fitness_function"] = FitnessFunction(**kw["fitness_function"])
+    kw["algorithm"] = Algorithm(**kw["algorithm"])
+    kw["parameters"] = [ParameterValues(key=d["key"], values=d["values"], boundaries=tuple(d["boundaries"]))
+                        for d in kw["parameters"]]
+    return Calibration(readout=None, outputs=CalibrationOutputs(**od) if od else None, pipeline_seed=p.get("seed"), **kw)
+
+
+def yaml_text(p, times):
+    """The same scenario as a YAML configuration file (entries run_file / cli)."""
+    import yaml
+
+    mode, od = p["mode"], outputs_dict(p)
+    doc = {}
+    if mode == "exposure":
+        sec = dict(readout=dict(times=times, non_destructive=False))
+        name = "exposure"
+    elif mode in ("obs_seq", "obs_dask"):
+        sec = dict(obs_kwargs(p), readout=dict(times=times, non_destructive=False))
+        name = "observation"
+    else:
+        sec = calib_kwargs(p)
+        name = "calibration"
+    if od:
+        sec["outputs"] = od
+    if p.get("seed") is not None:
+        sec["pipeline_seed"] = p["seed"]
+    doc[name] = sec
+    doc["ccd_detector"] = dict(
+        geometry=dict(row=3, col=4, total_thickness=40.0, pixel_vert_size=10.0, pixel_horz_size=10.0),
+        environment=dict(temperature=200.0),
+        characteristics=dict(quantum_efficiency=1.0, charge_to_volt_conversion=1.0e-6, pre_amplification=1.0,
+                             full_well_capacity=100000, adc_bit_resolution=16, adc_voltage_range=[0.0, 10.0]))
+    doc["pipeline"] = {g: [dict(name=m["name"], func=m["func"], enabled=m["enabled"], arguments=m["arguments"])
+                           for m in ms] for g, ms in model_specs(p).items()}
+    return yaml.safe_dump(doc, sort_keys=False)
+
+
+# ------------------------------------------------------------------------------------------ running
+
+
+def _start(p, nsteps):
+    """Call the entry point; returns whatever it returns."""
+    import pyxel
+    from harness import pyx
+    from pyxel.pipelines import Processor
+
+    entry, mode = p.get("entry", "run_mode"), p["mode"]
+    times = [float(i + 1) for i in range(nsteps)]
+    if entry in ("run_file", "cli"):
+        fn = os.path.abspath("c09_case.yaml")
+        with open(fn, "w") as fh:
+            fh.write(yaml_text(p, times))
+        if entry == "run_file":
+            return pyxel.run(fn)
+        from pyxel.run import main
+
+        return main(args=["run", fn], standalone_mode=False)
+
+    det = pyx.make_detector()
+    pipe = pyx.make_pipeline(model_specs(p))
+    m = build_mode(p, pyx.make_readout(times=times))
+    debug = bool(p.get("debug"))
+    if entry == "run_mode":
+        return pyxel.run_mode(mode=m, detector=det, pipeline=pipe, debug=debug, with_inherited_coords=True)
+    if entry == "deprecated":
+        if mode == "exposure":
+            return pyxel.exposure_mode(exposure=m, detector=det, pipeline=pipe)
+        if mode in ("obs_seq", "obs_dask"):
+            return pyxel.observation_mode(observation=m, detector=det, pipeline=pipe)
+        return pyxel.calibration_mode(calibration=m, detector=det, pipeline=pipe)
+    if entry == "method":
+        if m.outputs:
+            m.outputs.create_output_folder()
+        if mode == "exposure":
+            return m.run_exposure(processor=Processor(detector=det, pipeline=pipe), debug=debug,
+                                  with_inherited_coords=True)
+        if mode in ("obs_seq", "obs_dask"):
+            return m.run_pipelines(processor=Processor(detector=det, pipeline=pipe, observation_mode=m),
+                                   with_inherited_coords=True)
+        return m.run_calibration(processor=Processor(detector=det, pipeline=pipe),
+                                 output_dir=m.outputs.current_output_folder if m.outputs else None,
+                                 with_inherited_coords=True)
+    raise ValueError(f"entry {entry!r}")
+
+
+def _failing_cleanup(output_dir):
+    raise OSError(CLEANUP_MSG)
+
+
 def handle(p):
+    import shutil
     import warnings
 
     warnings.filterwarnings("ignore")
     logging.disable(logging.CRITICAL)
     import dask
+    import numpy as np
     import verif_probes as vp
-    from harness import pyx
 
-    import pyxel
+    import pyxel  # noqa: F401
+    import pyxel.outputs as pyxel_outputs
 
+    import time
+
+    t_start = time.time()
     vp.reset()
+    p = dict(p, _cid=f"{os.getpid()}-{next(_CASE_IDS)}")
     mode = p["mode"]
-    det = pyx.make_detector()
-    pipe = build_pipeline(p)
-    nsteps = p["nsteps"]
-    readout = pyx.make_readout(times=[float(i + 1) for i in range(nsteps)])
+    entry = p.get("entry", "run_mode")
     res = dict(call=dict(notrun=True), load=dict(notrun=True))
     sched = p.get("scheduler") or "threads"
-
-    if mode == "exposure":
-        from pyxel.exposure import Exposure
-
-        m = Exposure(readout=readout)
-    elif mode in ("obs_seq", "obs_dask"):
-        from pyxel.observation import Observation, ParameterValues
-
-        params = [ParameterValues(key=param_key(p, pp["kind"]), values=list(pp["values"])) for pp in p["params"]]
-        m = Observation(parameters=params, readout=readout, mode="product", with_dask=(mode == "obs_dask"))
-    else:
-        import numpy as np
-        from pyxel.calibration import Algorithm, Calibration
-        from pyxel.observation import ParameterValues
-        from pyxel.pipelines.model_function import FitnessFunction
-
+    shutil.rmtree(OUT_FOLDER, ignore_errors=True)
+    if mode == "calib":
         np.save("c09_target.npy", np.full((3, 4), 2.0))
-        g, mn = first_enabled(p)
-        m = Calibration(
-            target_data_path=["c09_target.npy"],
-            fitness_function=FitnessFunction(func="pyxel.calibration.fitness.sum_of_abs_residuals"),
-            algorithm=Algorithm(type="sade", generations=1, population_size=p["pop"]),
-            parameters=[ParameterValues(key=f"pipeline.{g}.{mn}.arguments.arg", values="_", boundaries=(0.0, 4.0)),
-                        ParameterValues(key=f"pipeline.{g}.{mn}.arguments.arg2", values="_", boundaries=(0.0, 1.0))],
-            readout=None, result_type="pixel", result_fit_range=(0, 3, 0, 4), target_fit_range=(0, 3, 0, 4),
-            pygmo_seed=p.get("pygmo_seed", 1), num_islands=1, num_evolutions=p["evolutions"],
-            type_islands="multithreading")
+    root = logging.getLogger()
+    handlers_before = list(root.handlers)
+    saved_cleanup = pyxel_outputs.save_log_file
+    if p.get("cleanup_fails"):
+        pyxel_outputs.save_log_file = _failing_cleanup
 
-    with dask.config.set(scheduler=sched):
-        try:
-            out = pyxel.run_mode(mode=m, detector=det, pipeline=pipe, with_inherited_coords=True)
-            res["call"] = dict(returned=True, type=type(out).__name__)
-        except Exception as ex:  # noqa: BLE001
-            out = None
-            res["call"] = exc_info(ex)
-        res["n_trace_call"] = len(vp.TRACE)
-        if out is not None and mode in ("obs_dask", "calib"):
+    try:
+        with dask.config.set(scheduler=sched):
             try:
-                loaded = out.load()
-                res["load"] = dict(returned=True, type=type(loaded).__name__)
-            except Exception as ex:  # noqa: BLE001
-                res["load"] = exc_info(ex)
+                out = _start(p, p["nsteps"])
+                res["call"] = dict(returned=True, type=type(out).__name__)
+            except BaseException as ex:  # noqa: BLE001 - KeyboardInterrupt / SystemExit are injected on purpose
+                out = None
+                res["call"] = exc_info(ex)
+            res["n_trace_call"] = len(vp.TRACE)
+            if out is not None and entry in ("run_mode", "method") and mode in ("obs_dask", "calib"):
+                try:
+                    loaded = out.load()
+                    res["load"] = dict(returned=True, type=type(loaded).__name__)
+                except BaseException as ex:  # noqa: BLE001
+                    res["load"] = exc_info(ex)
+    finally:
+        pyxel_outputs.save_log_file = saved_cleanup
+        for h in list(root.handlers):          # the CLI installs a file and a stdout handler on every call
+            if h not in handlers_before:
+                root.removeHandler(h)
+                try:
+                    h.close()
+                except Exception:  # noqa: BLE001
+                    pass
+        logging.disable(logging.CRITICAL)
     tr = trace_of(p)
     res["n_trace"] = len(tr)
     res["trace"] = tr if mode in ("exposure", "obs_seq") else []
     res["runs_seen"] = sorted({e[0] for e in tr})
+    if p.get("outputs"):
+        res["files"] = sorted(f for _, _, fs in os.walk(OUT_FOLDER) for f in fs)[:12]
+    shutil.rmtree(OUT_FOLDER, ignore_errors=True)
+    res["secs"] = round(time.time() - t_start, 3)
     return res
